@@ -146,6 +146,7 @@ func c06Valid() []string {
 		"select a + 1 as a where true", "select a = 1 as a where true", "select key, b + 1 as a, a + 1 as b where true", "select a & true as a where true",
 		"select key + a as a where true", "select 1 + a as a where a > 0", "select a between 1 and 2 as a where true", "select a in (1, 2) as a where true",
 		"select !(a) as a where true", "select a + a as a where true", "select key, a * 2 as b, b - 1 as c, c / 2 as a where a > 1", "select a ^= 'x' as a where a",
+		"select list(a)[0] as a where true", "select list(a)[0] + 1 as a where true", "select int_list(a)[0] as a where a > 0", "select key, list(b, 1)[0] + 1 as a, a * 2 as b where b > 0",
 		"select sum(a) + 1 as a where true", "select a[0] as a where true", "select json(a)['x'] as a where true", "select split(a, ',')[0] + 'x' as a where true order by a")
 	// zero-argument / odd-arity calls of every function
 	fns := []string{"lower", "upper", "int", "float", "str", "is_int", "is_float", "substr", "json", "split", "list", "float_list", "int_list", "flist", "ilist", "len", "join", "strlen", "cosine_distance", "l2_distance",
@@ -199,6 +200,22 @@ func c06Valid() []string {
 	for _, ag := range []string{"sum(value)", "min(value)", "max(value)", "avg(value)", "sum(value) + 1", "max(value) - min(value)", "count(1)", "quantile(value, 0.5)"} {
 		for _, dir := range []string{"", " desc"} {
 			add("select substr(key, 0, 1) as g, "+ag+" as x where true group by g order by x"+dir, "select substr(key, 0, 1) as g, "+ag+" as x, count(1) as c where key != 'zz' group by g order by c desc, x"+dir+" limit 1, 2")
+		}
+	}
+	// every pair of key-constraining atoms with edge literals (empty text, a
+	// key's own prefix, a byte above every key), joined by & and |, bare and
+	// under a further disjunct: the region arithmetic of the planner
+	var katoms []string
+	for _, lit := range []string{"''", "'a'", "'k'", "'k1'", "'~'"} {
+		for _, op := range []string{"=", "!=", "<", "<=", ">", ">=", "^=", "~="} {
+			katoms = append(katoms, "key "+op+" "+lit)
+		}
+		katoms = append(katoms, lit+" < key", lit+" >= key", "key in ("+lit+", 'b')", "key between '' and "+lit, "key between "+lit+" and 'k2'")
+	}
+	katoms = append(katoms, "true", "false", "value = '1'")
+	for _, a := range katoms {
+		for _, b := range katoms {
+			add("select * where "+a+" & "+b, "select * where "+a+" | "+b, "select count(1) where ("+a+" & "+b+") | key = 'z'", "delete where "+a+" & "+b)
 		}
 	}
 	// order by / group by over dynamically typed columns
